@@ -5,7 +5,7 @@ Open Scope N_scope.
 
 Definition derr_eqb (a b : derr) : bool :=
   match a, b with
-  | EEmpty, EEmpty | EInvalidLength, EInvalidLength | EInvalidUtf8, EInvalidUtf8 => true
+  | EEmpty, EEmpty | EInvalidLength, EInvalidLength | EInvalidUtf8, EInvalidUtf8 | ETooDeep, ETooDeep => true
   | EUnknownType x, EUnknownType y => x =? y
   | _, _ => false
   end.
